@@ -462,8 +462,19 @@ func ruleC17Rebase(c *Ctx, r *Rep) {
 									}
 									if val.Pos() <= m.Pos() && m.End() <= val.End() {
 										errField = append(errField, typeName(t)+"."+name)
+										under = true // building the error value is reporting it, wherever that happens
 									}
 								}
+							}
+						}
+					}
+				}
+				// an adjustment of a field of an error value: e.Offset -= i.offset
+				for i := len(stack) - 1; i >= 0 && !under; i-- {
+					if as, ok := stack[i].(*ast.AssignStmt); ok && len(as.Lhs) == 1 {
+						if sel, ok := unparen(as.Lhs[0]).(*ast.SelectorExpr); ok {
+							if t := info.TypeOf(sel.X); t != nil && (types.Implements(t, errorIface()) || types.Implements(types.NewPointer(t), errorIface())) {
+								under = true
 							}
 						}
 					}
@@ -1378,6 +1389,24 @@ func ruleCloseExhausted(c *Ctx, r *Rep) {
 				return true
 			}
 			sel, ok := call.Fun.(*ast.SelectorExpr)
+			if ok && sel.Sel.Name != "Close" {
+				// a helper method of the same type that does the closing (one level)
+				if f, isF := callee(info, call).(*types.Func); isF && f.Pkg() == p.Types {
+					if sig, _ := f.Type().(*types.Signature); sig != nil && sig.Recv() != nil && typeName(sig.Recv().Type()) == strings.SplitN(declKey(fd), ".", 2)[0] {
+						if d := c.Decl(p, typeName(sig.Recv().Type())+"."+f.Name()); d != nil && d != fd {
+							ast.Inspect(d.Body, func(q ast.Node) bool {
+								if cc, ok := q.(*ast.CallExpr); ok {
+									if cs, ok := cc.Fun.(*ast.SelectorExpr); ok && cs.Sel.Name == "Close" && len(cc.Args) == 0 && d.Name.Name != "Close" {
+										closes = true
+									}
+								}
+								return true
+							})
+						}
+					}
+				}
+				return true
+			}
 			if !ok || sel.Sel.Name != "Close" || len(call.Args) != 0 {
 				return true
 			}
